@@ -461,6 +461,11 @@ fn format_node<'source>(
 
             group = group.str("import").space_or_indent();
 
+            // An empty item list implies that a `*` wildcard import was used.
+            if items.is_empty() {
+                group = group.char('*');
+            }
+
             for (i, ImportItem { item, name }) in items.iter().enumerate() {
                 group = group.nested(0, node, |mut nested| {
                     nested = nested.node(*item);
